@@ -1292,6 +1292,14 @@ impl Tuple {
         Ok(())
     }
 
+    /// Erases the delete mark (used by vacuum for the mark of a deleter that did not commit).
+    pub(crate) fn clear_delete_mark(&mut self) {
+        let buffer = self.data.effective_data_mut();
+        let (mut header, _) = TupleHeader::read_from(buffer, 0);
+        header.xmax = -1;
+        header.write_to(buffer, 0);
+    }
+
     /// Vacuums the tuple by removing all delta versions that are no longer needed
     /// by any active transaction.
     ///
